@@ -9,6 +9,7 @@
 -/
 import OtterVerif.Proofs.PolicyGen
 import OtterVerif.Pin.Policy
+import OtterVerif.Gen.NodeSites
 
 namespace OtterVerif.Props.C04Gen
 open OtterVerif OtterVerif.Impl.Policy OtterVerif.Proofs.PolicyGen
@@ -57,6 +58,22 @@ theorem c04_gen_operands :
     (Gen.Policy.shape.lookup "evictFromMain").map (List.take 3) = some [14, 0, 29] := by
   rw [Pin.Policy.siteParams_pin, Pin.Policy.shape_pin]
   refine ⟨by rfl, by rfl, by rfl⟩
+
+/-- the ten node layouts that carry a life-cycle state encode it the same way (0 alive, 1 retired, 2 dead) — what Impl.Policy's
+    `NState` and the table's makeRetired / makeDead rely on; the two layouts of caches without maintenance (B, BR) are always alive -/
+theorem c05_gen_node_states (s : BitVec 32) :
+    (Gen.NodeSites.BE_IsAlive_r0 s = (s == 0#32) ∧ Gen.NodeSites.BE_IsRetired_r0 s = (s == 1#32) ∧ Gen.NodeSites.BE_IsDead_r0 s = (s == 2#32)) ∧
+    (Gen.NodeSites.BER_IsAlive_r0 s = (s == 0#32) ∧ Gen.NodeSites.BER_IsRetired_r0 s = (s == 1#32) ∧ Gen.NodeSites.BER_IsDead_r0 s = (s == 2#32)) ∧
+    (Gen.NodeSites.BERW_IsAlive_r0 s = (s == 0#32) ∧ Gen.NodeSites.BERW_IsRetired_r0 s = (s == 1#32) ∧ Gen.NodeSites.BERW_IsDead_r0 s = (s == 2#32)) ∧
+    (Gen.NodeSites.BEW_IsAlive_r0 s = (s == 0#32) ∧ Gen.NodeSites.BEW_IsRetired_r0 s = (s == 1#32) ∧ Gen.NodeSites.BEW_IsDead_r0 s = (s == 2#32)) ∧
+    (Gen.NodeSites.BRW_IsAlive_r0 s = (s == 0#32) ∧ Gen.NodeSites.BRW_IsRetired_r0 s = (s == 1#32) ∧ Gen.NodeSites.BRW_IsDead_r0 s = (s == 2#32)) ∧
+    (Gen.NodeSites.BS_IsAlive_r0 s = (s == 0#32) ∧ Gen.NodeSites.BS_IsRetired_r0 s = (s == 1#32) ∧ Gen.NodeSites.BS_IsDead_r0 s = (s == 2#32)) ∧
+    (Gen.NodeSites.BSE_IsAlive_r0 s = (s == 0#32) ∧ Gen.NodeSites.BSE_IsRetired_r0 s = (s == 1#32) ∧ Gen.NodeSites.BSE_IsDead_r0 s = (s == 2#32)) ∧
+    (Gen.NodeSites.BSER_IsAlive_r0 s = (s == 0#32) ∧ Gen.NodeSites.BSER_IsRetired_r0 s = (s == 1#32) ∧ Gen.NodeSites.BSER_IsDead_r0 s = (s == 2#32)) ∧
+    (Gen.NodeSites.BSR_IsAlive_r0 s = (s == 0#32) ∧ Gen.NodeSites.BSR_IsRetired_r0 s = (s == 1#32) ∧ Gen.NodeSites.BSR_IsDead_r0 s = (s == 2#32)) ∧
+    (Gen.NodeSites.BW_IsAlive_r0 s = (s == 0#32) ∧ Gen.NodeSites.BW_IsRetired_r0 s = (s == 1#32) ∧ Gen.NodeSites.BW_IsDead_r0 s = (s == 2#32)) ∧
+    Gen.NodeSites.B_IsAlive_r0 = true ∧ Gen.NodeSites.BR_IsAlive_r0 = true :=
+  ⟨⟨rfl, rfl, rfl⟩, ⟨rfl, rfl, rfl⟩, ⟨rfl, rfl, rfl⟩, ⟨rfl, rfl, rfl⟩, ⟨rfl, rfl, rfl⟩, ⟨rfl, rfl, rfl⟩, ⟨rfl, rfl, rfl⟩, ⟨rfl, rfl, rfl⟩, ⟨rfl, rfl, rfl⟩, ⟨rfl, rfl, rfl⟩, rfl, rfl⟩
 
 /-! non-vacuity: a policy at its maximum where the guard is true -/
 example : Gen.Policy.evictFromMain_c0 (3#64) (4#64) = true := by decide
